@@ -2,11 +2,16 @@ package sim
 
 import (
 	"bytes"
+	"crypto/ecdsa"
 	"crypto/sha256"
+	"encoding/json"
 	"fmt"
+	"github.com/ethereum/go-ethereum/crypto"
 	"math/big"
 	"net"
+	"os"
 	"sort"
+	"strconv"
 	"time"
 
 	"github.com/ethereum/go-ethereum/p2p/enode"
@@ -45,7 +50,44 @@ func genC20(r *prng) *plan {
 		}
 	}
 	p.Ops = append(p.Ops, opSpec{K: "gossip", N: []int64{0, int64(r.intn(4)), int64(1 + r.intn(3))}})
+	if r.chance(12) {
+		// tables beyond 160 entries, up to all 17 buckets full (272): keys searched once at set-up time
+		p.Cfg["big"] = int64([]int{200, 240, 272}[r.intn(3)])
+	}
 	return p
+}
+
+// c20BigKeys: the pre-computed keys for the low buckets of one fixed victim (see cmd/c20keys), or nil.
+func c20BigKeys() (victim *ecdsa.PrivateKey, byDist map[int][]*ecdsa.PrivateKey) {
+	dir := os.Getenv("VERIF_DIR")
+	if dir == "" {
+		dir = "/verif"
+	}
+	b, err := os.ReadFile(dir + "/.build/c20keys.json")
+	if err != nil {
+		return nil, nil
+	}
+	var f struct {
+		Victim string              `json:"victim"`
+		Keys   map[string][]string `json:"keys"`
+	}
+	if json.Unmarshal(b, &f) != nil {
+		return nil, nil
+	}
+	victim, err = crypto.HexToECDSA(f.Victim)
+	if err != nil {
+		return nil, nil
+	}
+	byDist = map[int][]*ecdsa.PrivateKey{}
+	for ds, ks := range f.Keys {
+		d, _ := strconv.Atoi(ds)
+		for _, h := range ks {
+			if k, err := crypto.HexToECDSA(h); err == nil {
+				byDist[d] = append(byDist[d], k)
+			}
+		}
+	}
+	return victim, byDist
 }
 
 func encRadiusPayload(ptype uint16, radius *big.Int) []byte {
@@ -91,7 +133,15 @@ func runC20(seed uint64) {
 	w.res.Class = "fault-free"
 	netID := c20Nets[p.cfg("net")%3]
 	supported := c20Supported[netID.Name()]
-	V := w.newBase(nodeCfg{name: "V", port: 9001, key: detKey(seed, 1), versions: []uint8{0, 1}, maxUtp: 50, capacityMB: 100})
+	vkey := detKey(seed, 1)
+	var bigKeys map[int][]*ecdsa.PrivateKey
+	if p.cfg("big") > 0 {
+		if vk, ks := c20BigKeys(); vk != nil {
+			vkey, bigKeys = vk, ks
+			w.probe("big_table_class")
+		}
+	}
+	V := w.newBase(nodeCfg{name: "V", port: 9001, key: vkey, versions: []uint8{0, 1}, maxUtp: 50, capacityMB: 100})
 	vp := V.newPlainProto(netID)
 	peers := map[enode.ID]*c20peer{}
 	// contents
@@ -104,6 +154,22 @@ func runC20(seed uint64) {
 	}
 	// fake nodes: signed records without a live peer; AddEnr records the maximum radius for them
 	nfake := int(p.cfg("fake"))
+	if bigKeys != nil {
+		// buckets 256 down to 240, 16 each, until the requested size is reached
+		i := 0
+		for d := 256; d >= 240 && i < int(p.cfg("big")); d-- {
+			for _, k := range bigKeys[d] {
+				if i >= int(p.cfg("big")) {
+					break
+				}
+				n := makeENR(k, net.IP{127, 0, 0, 1}, 30000+i, 1, 0)
+				vp.p.AddEnr(n)
+				peers[n.ID()] = &c20peer{node: n, radius: new(big.Int).Set(maxU256)}
+				i++
+			}
+		}
+		nfake = 0
+	}
 	if nfake > 0 {
 		want := map[int]int{}
 		left := nfake
